@@ -49,7 +49,7 @@ def generate(rng, tier, ctx):
         Q = pmul(d, G); X = lift_x(Q[0], 0)
         r = int.from_bytes(sgn[:32], 'big'); s = int.from_bytes(sgn[32:], 'big')
         muts = [('honest', sgn, msg, X), ('wrong-msg', sgn, msg + b'\0', X), ('odd-pk-object', sgn, msg, pneg(X)), ('zero-pk', sgn, msg, None),
-                ('neg-s', sgn[:32] + ((N - s) % N).to_bytes(32, 'big'), msg, X), ('other-key', sgn, msg, lift_x(pmul(d + 1, G)[0], 0))]
+                ('neg-s', sgn[:32] + ((N - s) % N).to_bytes(32, 'big'), msg, X), ('other-key', sgn, msg, lift_x(pmul((d % (N - 2)) + 2, G)[0], 0))]
         if r + P < M256: muts.append(('r+p', (r + P).to_bytes(32, 'big') + sgn[32:], msg, X))
         if s + N < M256: muts.append(('s+n', sgn[:32] + (s + N).to_bytes(32, 'big'), msg, X))
         for b in (range(512) if tier == 'thorough' and _ < 3 else [rng.randint(0, 511) for _ in range(8)]):
